@@ -2405,7 +2405,10 @@ def run(scn, ch, log=False):
                                 key_ = f"client_abandons_persistent_connection:{cls}:{fr}"
                             else:
                                 # not closed, merely not back in the pool when the next request was issued
-                                key_ = f"connection_not_reusable_when_response_completed:{'expect100' if rq['expect100'] else _req_class(rq)}"
+                                # (an early answer completes while the request's writer task is still pending, the same
+                                # deferred release as with expect100: C02-F13)
+                                key_ = ("connection_not_reusable_when_response_completed:"
+                                        + ("expect100" if rq["expect100"] else "early_answer" if hrec.get("early") else _req_class(rq)))
                             violate("keepalive_agreement", key_,
                                     f"{desc}: both ends chose keep-alive by their headers, the server kept the connection open and no "
                                     f"fault or idle timer fired, but the client "
@@ -2656,7 +2659,7 @@ PROPOSED_KNOWN_FINDINGS = [
   "property": "C02",
   "status": "known",
   "invariant": "keepalive_agreement",
-  "key_regex": "connection_not_reusable_when_response_completed:expect100",
+  "key_regex": "connection_not_reusable_when_response_completed:(expect100|early_answer)",
   "summary": "when a response completes while the request writer task is still pending (expect100 with an empty/short body: '100 Continue' and the final response arrive in one read), ClientResponse._response_eof cancels the writer and defers the release to its done-callback; read()/release() then await the already-finished writer but its callbacks have not run yet, so the connection is not back in the pool when the caller continues and the next request of the session opens a second connection although both ends chose keep-alive (the first connection is pooled a few callbacks later); wasteful, not unsafe",
   "example": "session.put(url, data=BytesPayload(b''), expect100=True) immediately followed by another request on the session"
  },
